@@ -28,9 +28,12 @@ PROP = "C16"
 THEOREMS = ["C16_checker_decides", "C16_stage_bracket", "C16_middleware", "C16_middleware_cache",
             "C16_multi", "C16_multi_stack", "C16_field_once_blocking", "C16_interleave",
             "C16_machine_linearises", "C16_field_once_deferred", "C16_apollo",
-            "C16_lift_preserves", "C16_argerr_erase", "C16_field_once_deferred_full", "C16_stage_and_fields"]
+            "C16_lift_preserves", "C16_argerr_erase", "C16_field_once_deferred_full", "C16_stage_and_fields",
+            "C16_list_fields_end_before_delivery", "C16_operation_hooks_before_execution_end",
+            "C16_list_items_after_failure_not_started", "C16_list_field_error_once",
+            "C16_deferred_words_exact"]
 AXIOMS_OK = []
-RUN_MODULE = "Run.C16run Spec.TraceSpec Exec.TraceModel Exec.RuntimeMachine Exec.TraceDeferred Exec.TraceLift Exec.TraceRequest"
+RUN_MODULE = "Run.C16run Spec.TraceSpec Exec.TraceModel Exec.RuntimeMachine Exec.TraceDeferred Exec.TraceLift Exec.TraceRequest Exec.TraceListModel"
 AGREE = "agree_C16"
 CASE_TYPE = "case_C16"
 SHARD = 40
@@ -594,14 +597,68 @@ def _cprog(enc, case, argerr):
                              flds("Mutation" if mut else "Query", [], case["sel"]))
 
 
+def has_lists(case):
+    if case["kind"] != "exec":
+        return False
+
+    def go(parent, sel):
+        return any(FIELDS[parent][name][1] or (sub and go(FIELDS[parent][name][0], sub))
+                   for _a, name, _arg, sub in sel)
+    return go("Mutation" if case["op"] == "mutation" else "Query", case["sel"])
+
+
+def _clprog(enc, case):
+    """the operation for the completion model Exec/TraceListModel.v"""
+    awaited = case["config"] == "asyncio" and case.get("mw_async") and case["n"] > 0
+
+    def flds(parent_type, path, sel):
+        out = "LFNil"
+        for alias, name, arg, sub in reversed(sel):
+            key = alias or name
+            p = path + [key]
+            tname, depth = FIELDS[parent_type][name]
+            w = case["world"].get(_pkey(p), "val")
+            if arg is not None and not str(arg).lstrip("-").isdigit():
+                w = "null"
+            if w == "cerr":
+                v = "LBad"
+            elif w != "val" or tname not in COMPOSITE:
+                v = "LLeaf"
+            elif not depth:
+                v = "(LObj %s)" % flds(tname, p, sub)
+            else:
+                def row(r, items):
+                    o = "LVNil"
+                    for c in reversed(range(len(items))):
+                        pref = [c] if depth == 1 else [r, c]
+                        it = "LBad" if items[c] == "bad" else "(LObj %s)" % flds(tname, p + pref, sub)
+                        o = "(LVCons %s %s)" % (it, o)
+                    return "(LList false %s)" % o
+                rows = _list_rows(case, p, depth)
+                if depth == 1:
+                    v = row(0, rows[0])
+                else:
+                    o = "LVNil"
+                    for r in reversed(range(len(rows))):
+                        o = "(LVCons %s %s)" % (row(r, rows[r]), o)
+                    v = "(LList true %s)" % o
+            dfr = awaited or is_deferred_field(case, parent_type, name)
+            out = "(LFCons %d %s %s %s)" % (enc.elem(key), "true" if dfr else "false", v, out)
+        return out
+
+    mut = case["op"] == "mutation"
+    return flds("Mutation" if mut else "Query", [], case["sel"])
+
+
 def _creq(enc, case):
     argerr = []
     prog = "(Some %s)" % _cprog(enc, case, argerr) if machine_applies(case) else "None"
-    return "(mkReq %d%%nat %d%%nat %s %s %s %s %s [%s] %s)" % (
+    lprog = "(Some %s)" % _clprog(enc, case) if has_lists(case) else "None"
+    return "(mkReq %d%%nat %d%%nat %s %s %s %s %s [%s] %s %s)" % (
         case["k"], case["n"], "true" if case["as_text"] else "false", oclass(case),
         "true" if mw_awaits(case) else "false", _ctree(enc, build_tree(case)), prog,
         "; ".join(enc.path(p) for p in argerr),
-        "true" if case["config"] == "asyncio" else "false")
+        "true" if case["config"] == "asyncio" else "false", lprog)
 
 
 def _crun(enc, r):
@@ -846,8 +903,8 @@ def generate(rng, tier):
                 st = rng.choice(["plain", "tracer"] if k == 1 else ["multi", "tracer", "nested"])
                 cases.append(_base(config, kind=kind, as_text=as_text, k=k, stacking=st,
                                    n=rng.choice([0, 2]), mw_async=rng.random() < 0.5, **extra))
-    n_block = 150 if quick else 900
-    n_def = 70 if quick else 200
+    n_block = 120 if quick else 900
+    n_def = 55 if quick else 200
     for config in ("blocking", "generic"):
         for _ in range(n_block):
             cases.append(_gen_exec(rng, config, 0, 1))
@@ -932,15 +989,17 @@ def _machine_replay(cases, obss):
     """second Coq pass: the C08/C09 executor machine run under each recorded
     schedule, decorated with the field hooks, against the recorded events"""
     from .. import common
-    idx = [i for i, c in enumerate(cases) if machine_applies(c) and "runs" in obss[i]]
+    idx = [i for i, c in enumerate(cases) if (machine_applies(c) or has_lists(c)) and "runs" in obss[i]]
     if not idx:
         return {"cases": 0}
-    cap = 60    # runs replayed per case (every case is replayed; long run lists are truncated)
+    cap = 60 if len(cases) > 1500 else 25    # runs replayed per case (every case is replayed; long run lists are truncated)
     terms = [to_coq(cases[i], dict(obss[i], runs=obss[i]["runs"][:cap])) for i in idx]
     bad, problems = common.run_cases(PROP + "m", RUN_MODULE, "machine_agree_C16", terms,
                                      shard=SHARD, case_type=CASE_TYPE)
     out = {"cases": len(idx), "runs": sum(min(cap, len(obss[i]["runs"])) for i in idx),
-           "by_config": {cfg: sum(1 for i in idx if cases[i]["config"] == cfg) for cfg in DEFERRED_CFG},
+           "by_config": {cfg: sum(1 for i in idx if cases[i]["config"] == cfg) for cfg in CONFIGS},
+           "machine_replayed_cases": sum(1 for i in idx if machine_applies(cases[i])),
+           "completion_model_cases": sum(1 for i in idx if has_lists(cases[i])),
            "mismatching_cases": len(bad), "evaluation_problems": problems[:3]}
     if bad:
         out["first_mismatch"] = cases[idx[bad[0]]]
